@@ -37,6 +37,7 @@ type runRec struct {
 	Accepted int            `json:"accepted"`
 	Faults   map[string]int `json:"faults,omitempty"`
 	Probes   map[string]int `json:"probes,omitempty"`
+	KnownSoft map[string]int `json:"known_soft,omitempty"`
 	SimSec   int64          `json:"sim_sec"`
 	Hashes   int            `json:"hashes"`
 	Distinct []string       `json:"distinct,omitempty"`
@@ -181,6 +182,7 @@ func cmdWorker(args []string) int {
 	bw := bufio.NewWriter(f)
 	defer bw.Flush()
 	known := loadKnown()
+	chain.IsKnown = func(sig string) bool { return known.match(sig) != nil }
 	deadline := time.Now().Add(time.Duration(*budget * float64(time.Second)))
 	seenSig := map[string]bool{}
 	runs := 0
@@ -194,7 +196,7 @@ func cmdWorker(args []string) int {
 		sc := spec.Make(rand.New(rand.NewSource(seed)), seed, *chainID, *tier)
 		w := runOne(spec, sc)
 		rec := runRec{K: k, Seed: seed, Chain: *chainID, Blocks: w.Stats.Blocks, Planned: len(sc.Blocks), Txs: w.Stats.Txs, Accepted: w.Stats.Accepted,
-			Faults: w.Stats.Faults, Probes: w.Stats.Probes, SimSec: w.Stats.SimSeconds, Hashes: w.Stats.Hashes, Trunc: w.Stats.Truncated}
+			Faults: w.Stats.Faults, Probes: w.Stats.Probes, KnownSoft: w.Stats.Known, SimSec: w.Stats.SimSeconds, Hashes: w.Stats.Hashes, Trunc: w.Stats.Truncated}
 		if w.Node != nil {
 			rec.Digest = hex.EncodeToString(w.Node.Digest[:8])
 		}
@@ -453,6 +455,9 @@ func finish(spec *chain.PropSpec, tier string, base int64, recs []runRec, start 
 		}
 		for k, v := range r.Probes {
 			probes[k] += v
+		}
+		for k, v := range r.KnownSoft {
+			knownSeen[k] += v
 		}
 		blocks += r.Blocks
 		txs += r.Txs
